@@ -5,6 +5,7 @@ Sections of one run (all enumerations are deterministic; the seed only adds inde
   S2  `x[ix]` on unyt objects: class, shape, units, name, memory — model + direct oracle
   S3  iteration
   S4  constructors, `data * unit`, list coercion
+  S4b `_coerce_iterable_units` as the program regenerated from the live source (dtype kinds x offset units x routes)
   S5  accessor table (regenerated probe vs live re-probe on every shape) + view/copy oracle
   S6  ufuncs (every registered ufunc × operand classes × shapes × methods)
   S7  array functions / ndarray methods catalogue (handled and default-path)
@@ -51,6 +52,7 @@ def run(tier, seed):
     guarded("S2", O.s2_getitem)
     guarded("S3", O.s3_iteration)
     guarded("S4", O.s4_constructors)
+    guarded("S4b", O.s4b_coerce_prog)
     guarded("S5", O.s5_accessors)
     guarded("S6", O.s6_ufuncs)
     guarded("S7", O.s7_functions)
